@@ -113,6 +113,34 @@ def run(chk):
                 detail[tid] = {'examples': empty if not isinstance(empty, dict) else empty, 'options': {k: x for k, x in kw2.items() if k != 'size'},
                                'size': sizekw, 'first': [], 'second': r['rex']}
                 tid += 1
+    # the two-step entry point: Extractor(..., extract=False) now, x.extract() later, the global generator used in between
+    from tdda.rexpy.rexpy import Extractor
+    for i in range(600 if thorough else 120):
+        ex = [e for e in rx.rich_examples(rnd) if e is not None]
+        kw, sizekw = rx.rich_options(rnd)
+        kw['seed'] = rnd.randint(0, 9)
+        one, ok1 = call(list(ex), kw)
+        if one['raised'] != 'none':
+            continue
+        try:
+            with rx.quiet():
+                x = Extractor(list(ex), extract=False, **kw)
+                for _ in range(rnd.randint(1, 4)):
+                    random.random()                     # the caller's own use of the generator
+                before = prng_fingerprint()
+                x.extract()
+                after = prng_fingerprint()
+            second = list(x.results.rex) if x.results else []
+            raised = 'none'
+        except Exception as exn:
+            second, raised, before, after = [], type(exn).__name__, 0, 0
+        events.append({'tid': tid, 'ev': 'Pair', 'kind': 'two-step', 'raised': raised, 'same': second == one['rex'], 'seeded': True,
+                       'prngsame': ok1 and before == after, 'sampling': False})
+        detail[tid] = {'examples': ex, 'form': 'Extractor(examples, extract=False, seed=s, ...); random.random(); x.extract()',
+                       'options': {k: v for k, v in kw.items() if k != 'size'}, 'size': sizekw, 'first': one['rex'], 'second': second}
+        chk.count_case(('two-step', json.dumps(ex), json.dumps(detail[tid]['options'], sort_keys=True)), nontrivial=bool(second))
+        chk.coverage['replayed_cases'] += 1
+        tid += 1
     # "repeating an example changes nothing", also next to the sampling thresholds: the number of DISTINCT strings lies
     # between do_all_exceptions and do_all, while the number of strings supplied (with repeats) lies beyond do_all
     from tdda.rexpy.rexpy import Size
